@@ -32,6 +32,7 @@ Proof.
   - destruct Hc as (H1 & H2 & H3). split; [eapply step_cstop_none; eassumption|]. split.
     + intros Hx. destruct (step_cstart_failed _ _ _ _ H Hx) as [Hy|Hy]; [auto | congruence].
     + intros Hx. rewrite Hv in Hx. eapply step_cstart_none; eauto.
+  - destruct Hc as [H1 H2]. split; [eapply step_cstop_none | eapply step_cstart_none]; eassumption.
   - destruct Hc as (H1 & H2). rewrite (step_cstart_done _ _ _ _ H H1). split; [exact H1|].
     intros Hx. rewrite Hv in Hx. destruct (H2 Hx) as [H3 H4]. split; [eapply step_cstop_none; eassumption | exact H4].
   - destruct Hc as (H1 & H2). split; [eapply step_cstart_none; eassumption|].
